@@ -4,6 +4,7 @@ import MithrilModel.Handlers.C01
 import MithrilModel.Handlers.C02
 import MithrilModel.Handlers.C03
 import MithrilModel.Handlers.C04
+import MithrilModel.Handlers.C05
 import MithrilModel.Handlers.C06
 import MithrilModel.Handlers.C07
 import MithrilModel.Handlers.C08
@@ -29,6 +30,7 @@ def dispatch (line : String) : String :=
       else if r.op.startsWith "c02." then Handlers.C02.handle r
       else if r.op.startsWith "c03." then Handlers.C03.handle r
       else if r.op.startsWith "c04." then Handlers.C04.handle r
+      else if r.op.startsWith "c05." then Handlers.C05.handle r
       else if r.op.startsWith "c06." then Handlers.C06.handle r
       else if r.op.startsWith "c07." then Handlers.C07.handle r
       else if r.op.startsWith "c08." then Handlers.C08.handle r
